@@ -12,9 +12,10 @@
 (* and counted; the orchestrator matches the signature against              *)
 (* known_findings.json.  Acceptance: every line was consumed (POSTCONDITION).*)
 (***************************************************************************)
-EXTENDS EditProps, Json
+EXTENDS TreeOpsDef, Json
 
-CONSTANT PROPS      \* the property ids whose predicates are evaluated in this run
+CONSTANTS PROPS,     \* the property ids whose predicates are evaluated in this run
+          CONFORM    \* also check that the real result is one the operational model (TreeOpsDef) allows
 
 Trace == ndJsonDeserialize("trace.ndjson")
 
@@ -49,46 +50,13 @@ C03Fails(ev, T) ==
                ELSE (IF "enum" \in DOMAIN T THEN F_Enum(T, V, T.enum) ELSE {"EnumMissing"})
                     \cup (IF "txt" \in DOMAIN T THEN F_Text(T, V, T.txt) ELSE {"TextMissing"})
 
-AsSet(s) == SeqRange(s)
-
-C05Fails(ev, V, W) ==
-  CASE ev.op \in {"Reroot", "RerootFirst", "UnRoot", "RotateInternalNodes", "RotateNeighbors", "SortNeighborsByTips"}
-         -> F_SameTree(V, W)
-    [] ev.op = "RerootOutGroup"
-         -> F_OutGroup(V, W, AsSet(ev.args.names) \cap V.names, ev.args.strict, ev.args.remove)
-    [] ev.op = "RerootMidPoint" -> F_MidPoint(V, W)
-    [] OTHER -> {}
-
-C06Fails(ev, V, W) ==
-  IF ev.op = "RemoveTips" /\ SingleNodes(V) = {}
-  THEN F_Prune(V, W, AsSet(ev.args.names), ev.args.revert) \cup F_Lookups(W, ev.res)
-  ELSE {}
-
-\* the exact-set claim is made on trees free of single-child inner nodes
-C07Fails(ev, V, W) ==
-  IF SingleNodes(V) # {} THEN {}
-  ELSE
-  CASE ev.op = "CollapseShortBranches"
-         -> LET inn  == InnerNonRoot(V)
-                must == {n \in inn : BrOf(V, n).len # NIL /\ BrOf(V, n).len <= ev.args.thr}
-                may  == {n \in inn : BrOf(V, n).len = NIL}
-            IN  F_Collapse(V, W, must, may, ~ev.args.tips)
-    [] ev.op = "CollapseLowSupport"
-         -> LET inn  == InnerNonRoot(V)
-                must == {n \in inn : BrOf(V, n).sup # NIL /\ BrOf(V, n).sup < ev.args.thr}
-            IN  F_Collapse(V, W, must, {}, TRUE)
-    [] ev.op = "CollapseTopoDepth"
-         -> LET inn  == InnerNonRoot(V)
-                must == {n \in inn : TopoDepthOf(V, n) >= ev.args.min /\ TopoDepthOf(V, n) <= ev.args.max}
-            IN  F_Collapse(V, W, must, {}, ~ev.args.tips)
-    [] ev.op = "Resolve" -> F_Resolve(V, W)
-    [] OTHER -> {}
+C06TraceFails(ev, V, W) ==
+  C06Fails(ev, V, W) \cup (IF ev.op = "RemoveTips" /\ SingleNodes(V) = {} THEN F_Lookups(W, ev.res) ELSE {})
 
 C15Fails(ev, V, W) ==
   CASE ev.op = "GraftTreeOnTip" -> F_GraftTree(V, W, View(ev.post2), ev.args.tip)
     [] ev.op = "Merge"          -> F_Merge(V, W, View(ev.post2))
-    [] ev.op = "InsertIdenticalTips" -> F_Identical(V, W, ev.args.groups)
-    [] ev.op = "RemoveSingleNodes"   -> F_RemoveSingle(V, W)
+    [] ev.op \in {"InsertIdenticalTips", "RemoveSingleNodes"} -> C15LocalFails(ev, V, W)
     [] ev.op = "SubTree"        -> F_SameTree(V, W) \cup
                                    (IF WellFormed(ev.post2) THEN F_SubTree(V, View(ev.post2), ev.args.node)
                                     ELSE {"SubTreeWellFormed"})
@@ -123,12 +91,29 @@ StepFails(ev, T0, T1) ==
                  [C03 |-> IF On("C03") THEN C03Fails(ev, T1) ELSE {},
                   C04 |-> IF On("C04") THEN C04Fails(ev, T1, W) ELSE {},
                   C05 |-> IF On("C05") THEN C05Fails(ev, V, W) ELSE {},
-                  C06 |-> IF On("C06") THEN C06Fails(ev, V, W) ELSE {},
+                  C06 |-> IF On("C06") THEN C06TraceFails(ev, V, W) ELSE {},
                   C07 |-> IF On("C07") THEN C07Fails(ev, V, W) ELSE {},
                   C15 |-> IF On("C15") THEN C15Fails(ev, V, W) ELSE {},
                   C17 |-> IF On("C17") THEN C17Fails(ev, T0, V, T1, W) ELSE {}]>>
 
 PropIds == {"C03", "C04", "C05", "C06", "C07", "C15", "C17"}
+
+(* Strict conformance with the operational model: the recorded result is one of the results        *)
+(* Apply allows for the recorded pre-state and arguments.  A mismatch is DRIFT (model and code      *)
+(* disagree without a property being violated): reported, never a verdict.                          *)
+Conforms(ev, V, W) ==
+  IF ~Modelled(ev) \/ SingleNodes(V) # {} \/ Cardinality(V.tips) < 3 THEN TRUE
+  ELSE LET r == Apply(FromView(V), ev)
+       IN  /\ r.ok
+           /\ \E t \in r.res : IF RootExact(ev) THEN Canon(MView(t)) = Canon(W)
+                                ELSE IF ev.op = "RemoveTips"
+                                \* where the (pseudo-)root ends up, and hence whether it is bifurcating, depends
+                                \* on the order in which the tips are met
+                                THEN UCanon(MView(t)).len = UCanon(W).len /\ UCanon(MView(t)).sup = UCanon(W).sup
+                                ELSE UCanon(MView(t)) = UCanon(W)
+RefusalConforms(ev, V) ==
+  IF ~Modelled(ev) \/ SingleNodes(V) # {} \/ Cardinality(V.tips) < 3 THEN TRUE ELSE Apply(FromView(V), ev).refuse
+Note(kind, ev, cls) == PrintT("NOTE|" \o kind \o "|" \o ev.op \o "|" \o cls \o "|" \o ToString(l) \o "|" \o ev.case)
 
 \* which property a crash inside an operation counts against
 CrashProp(ev) ==
@@ -172,7 +157,9 @@ TraceOp ==
           /\ alive' = FALSE /\ UNCHANGED cur
      ELSE IF ~Ev.ok
      THEN \* an error ends the history without judgement (policies 1 and 10)
-          alive' = FALSE /\ UNCHANGED <<cur, nfail>>
+          /\ alive' = FALSE /\ UNCHANGED <<cur, nfail>>
+          /\ (CONFORM /\ InDomain(View(cur.a)) /\ ~RefusalConforms(Ev, View(cur.a))
+                => Note("DRIFT-REFUSAL", Ev, RootClass(View(cur.a))))
      ELSE LET T0 == cur.a
               T1 == Ev.post
               r  == StepFails(Ev, T0, T1)
@@ -184,7 +171,8 @@ TraceOp ==
                       /\ alive' = FALSE
                  ELSE IF r[1] = ""
                  THEN nfail' = nfail /\ alive' = FALSE    \* left the domain (e.g. fewer than 2 tips): not judged further
-                 ELSE /\ \A p \in PropIds : Report(p, Ev, cls, r[2][p])
+                 ELSE /\ (CONFORM /\ ~Conforms(Ev, View(T0), View(T1)) => Note("DRIFT", Ev, cls))
+                      /\ \A p \in PropIds : Report(p, Ev, cls, r[2][p])
                       /\ nfail' = nfail + MapThenSumSet(LAMBDA p : Cardinality(r[2][p]), PropIds)
                       /\ alive' = TRUE
 
